@@ -463,7 +463,7 @@ Theorem log_default_refuted : forall t rows meth,
   /\ g_exit (EMeth (s "log") (s "Default") meth) = Recoverable.
 Proof.
   intros t rows meth H1 H2 H3 H4 Hm. split; [|reflexivity].
-  unfold y_exit, effective. rewrite H1, H2, H3, H4.
+  unfold y_exit, effective. rewrite H1, H3, H2, H4.
   destruct Hm as [<-|[<-|[<-|[]]]]; vm_compute; reflexivity.
 Qed.
 
@@ -476,7 +476,7 @@ Theorem real_ctor_refuted : forall t pkg ctor rows x typ meth,
   y_exit t (EMeth pkg ctor meth) = HostExit.
 Proof.
   intros t pkg ctor rows x typ meth H1 H2 H3 H4 H5 H6.
-  unfold y_exit, effective. now rewrite H1, H2, H3, H4, H5.
+  unfold y_exit, effective. now rewrite H1, H3, H2, H4, H5.
 Qed.
 
 (** the rows of today's source, frozen: witness of the refutation *)
@@ -546,7 +546,7 @@ Theorem flag_parse_refuted : forall t rows name,
   y_sink t (IOName (s "flag") name) = HostArgs /\ g_sink (IOName (s "flag") name) = OptArgs.
 Proof.
   intros t rows name H1 Hn H2 H3 H4.
-  unfold y_sink, effective. rewrite H1, H2, H3, H4.
+  unfold y_sink, effective. rewrite H1, H3, H2, H4.
   destruct Hn as [<-|[<-|[<-|[]]]]; vm_compute; auto.
 Qed.
 
